@@ -469,19 +469,36 @@ def run_job(job, io):
                         y: object = None
                     retry_cls = Plain
                     optree.dataclasses.dataclass(Plain, namespace=ns_arg)
-                how = tape.draw(2, 'dc-how') if sweep is None else 0
+                how = tape.draw(4, 'dc-how') if sweep is None else 0
+                dckw = ({}, {}, {'frozen': True}, {'slots': True}, {'kw_only': True}, {'eq': False}, {'order': True}, {'unsafe_hash': True})[tape.draw(8, 'dc-kw') if sweep is None else 0]
+                probes['dataclass-form:%d' % how] += 1
+                if how in (1, 3) and expect_exc is None and any(k in dckw for k in ('frozen', 'order', 'unsafe_hash')):
+                    # optree.dataclasses.make_dataclass applies the dataclass decorator twice; with these options the second
+                    # application refuses ("Cannot overwrite attribute ...").  A functional limitation no claimed property owns
+                    # (DESIGN 6a); what C12 asserts is that the refused call changes nothing, which the judge below checks.
+                    expect_exc = 'either'
+                    probes['make_dataclass-option-refused-possible'] += 1
                 if how == 0:
-                    @optree.dataclasses.dataclass(namespace=ns_arg)
+                    @optree.dataclasses.dataclass(namespace=ns_arg, **dckw)
                     class DC:
                         x: object
                         y: object = None
                     newcls = DC
+                elif how == 2:
+                    class DC:  # noqa: F811 - the direct-call form on an existing class (with slots=True the result is a NEW class)
+                        x: object
+                        y: object = None
+                    newcls = optree.dataclasses.dataclass(DC, namespace=ns_arg, **dckw)
+                elif how == 3 and (ns_arg is GLOBAL or isinstance(ns_arg, str)):
+                    # the legacy spelling: `namespace` is the class namespace dict of dataclasses.make_dataclass, the registry
+                    # namespace comes as `ns`; optree swaps them back
+                    newcls = optree.dataclasses.make_dataclass('MDC', ['x', ('y', object, None)], ns=ns_arg, namespace={'extra_attr': 1}, **dckw)
                 else:
-                    newcls = optree.dataclasses.make_dataclass('MDC', ['x', ('y', object, None)], namespace=ns_arg)
+                    newcls = optree.dataclasses.make_dataclass('MDC', ['x', ('y', object, None)], namespace=ns_arg, **dckw)
                 f = DataclassFuncs(newcls, rid[0])
                 rid[0] += 1
                 types.append(newcls)
-                instances[newcls] = newcls(U.Leaf(1), U.Leaf(2))
+                instances[newcls] = newcls(x=U.Leaf(1), y=U.Leaf(2))
                 model.reg[(key_ns, newcls)] = f
                 all_funcs.append(f)
                 dataclass_types.append(newcls)
@@ -554,7 +571,7 @@ def run_job(job, io):
                 fr = DataclassFuncs(retried, rid[0])
                 rid[0] += 1
                 types.append(retried)
-                instances[retried] = retried(U.Leaf(1), U.Leaf(2))
+                instances[retried] = retried(x=U.Leaf(1), y=U.Leaf(2))
                 model.reg[('a', retried)] = fr
                 all_funcs.append(fr)
                 dataclass_types.append(retried)
